@@ -212,6 +212,10 @@ class BaseLoader(ABC):
                 self._raise_open_error(url, e.reason)  # pragma: no cover
             except OSError as e:
                 self._raise_open_error(url, str(e))
+            except ValueError as e:
+                # urllib reports malformed URLs (for example an unbalanced
+                # '[' in the host part) with ValueError
+                self._raise_open_error(url, str(e))
 
             try:
                 data = file.read()
